@@ -117,7 +117,19 @@ class EmitEngine(object):
             return out
         version = rng.choice(list(spec.VERSIONS))
         vec = vectors.valid_vector(rng, version)
-        trace["item"] = {"k": "api", "ops": [{"op": "observe", "cls": spec.CLASS_OF[version], "s": vec}]}
+        cls = spec.CLASS_OF[version]
+        if rng.chance(0.5):
+            trace["item"] = {"k": "api", "ops": [{"op": "observe", "cls": cls, "s": vec}]}
+        else:
+            # the emitting accessors in a drawn order on ONE object (an emitter must not depend on
+            # which emitter ran before it)
+            calls = [("clean_vector", {}), ("rh_vector", {})]
+            if cls != "CVSS2":
+                calls += [("clean_vector", {"output_prefix": False}), ("clean_vector", {"output_prefix": True})]
+            rng.shuffle(calls)
+            calls = calls + [rng.choice(calls)]
+            trace["item"] = {"k": "api", "ops": [{"op": "new", "cls": cls, "s": vec, "as": "o"}] +
+                             [{"op": "call", "obj": "o", "m": m, "args": a} for m, a in calls]}
         return self.assess(trace, runner23.run_item(trace["item"]))
 
     # -- replay -------------------------------------------------------------------------
@@ -176,6 +188,26 @@ class EmitEngine(object):
                 vio += validate("cli-redhat-vector", rh_vector_part(view["rh"]), self.ctors, expect)
             dg = runner23.digest([item["argv"], res["events"], res["stdout"], res["exit"]])
             steps = res["reads"] + 1
+        elif item["ops"][0]["op"] == "new":
+            expect = spec.version_of_emitted(item["ops"][0]["s"])
+            for op, r in zip(item["ops"][1:], res["results"][1:]):
+                if "ok" not in r:
+                    continue
+                sval = r["ok"]
+                what = "%s(%s)" % (op["m"], ",".join("%s=%s" % kv for kv in sorted(op["args"].items())))
+                if op["m"] == "rh_vector":
+                    emitted.append(sval)
+                    vio += validate("rh_vector() [after other emitters]", rh_vector_part(sval) if isinstance(sval, str) else sval, self.ctors, expect)
+                elif op["args"].get("output_prefix") is False:
+                    full = spec.PREFIX[expect] + sval if isinstance(sval, str) else sval
+                    emitted.append(full)
+                    vio += validate("clean_vector(output_prefix=False) [prefix re-attached]", full, self.ctors, expect)
+                else:
+                    emitted.append(sval)
+                    vio += validate(what + " [after other emitters]", sval, self.ctors, expect)
+            counters["pure_clause_sampled"] = 1
+            dg = runner23.digest([item["ops"], res["results"]])
+            steps = len(item["ops"])
         else:
             r = res["results"][0]
             if "ok" in r:
@@ -213,7 +245,7 @@ class EmitEngine(object):
     def trace_size(self, trace):
         it = trace["item"]
         if it["k"] == "api":
-            return len(it["ops"][0]["s"])
+            return len(it["ops"][0]["s"]) + 10 * len(it["ops"])
         n = len(it["script"]) * 4 + sum(min(len(a[1]), 40) for a in it["script"])
         if it["k"] == "cli":
             n += 3 * len(it["argv"]) + sum(min(len(a), 300) for a in it["argv"])
@@ -232,13 +264,17 @@ class EmitEngine(object):
 
         if it["k"] == "api":
             op = it["ops"][0]
+            if len(it["ops"]) > 2:
+                for cand in list_deletions(it["ops"][1:]):
+                    if cand:
+                        yield with_item(ops=[op] + cand)
             prefix = spec.PREFIX[spec.version_of_emitted(op["s"])]
             fields = op["s"][len(prefix):].split("/")
             for cand in list_deletions(fields):
                 if cand:
                     o = dict(op)
                     o["s"] = prefix + "/".join(cand)
-                    yield with_item(ops=[o])
+                    yield with_item(ops=[o] + it["ops"][1:])
             return
         for cand in list_deletions(it["script"]):
             yield with_item(script=cand)
